@@ -222,3 +222,25 @@ PROPS['C14'] = {
 MANIFEST_TEXT['C14'] = {'claim': 'parsers accept exactly the documented names in any ASCII case and return the vendored constants; generated policies rendered to the documented YAML dialect with generated spelling, or marshalled to YAML/JSON, and loaded as the sandbox command does compile to the identical program',
                         'note': 'trusts go-ucfg and yaml.v2 as the documented loading path; host architecture only (the loader cannot select another table)',
                         'technique': 'property-based testing (rapid): parser oracle from the vendored name table, round-trip / differential compilation oracle; exhaustive case patterns'}
+
+PROPS['C12'] = {
+    'level': 'exploration',
+    'exhaustive': True,
+    'rule': ('exhaustive part: every (number -> name) and (name -> number) pair of the five tables: mutual inverse laws, equal sizes, agreement with every oracle source that '
+             'lists the name / the number (kernel UAPI 6.1 headers, Go syscall, x/sys v0.48.0; one documented alias set on aarch64); audit ids of all 16 Info values against linux/audit.h; '
+             'every alias and every table-less architecture name in lower and upper case; generated part (rapid): random ASCII case patterns of every alias, near-miss and arbitrary '
+             'names; k fresh processes must print the same digest over every lookup; an entry is non-trivial iff at least one oracle source lists it; an alias spelling iff it is not '
+             'the canonical one; distinct by hash of the case JSON'),
+    'assumptions': ['oracle tables are from Linux 6.1 headers / Go 1.23.5 syscall / x/sys v0.48.0: entries newer than all three are only checked for the inverse laws',
+                    'unicode strings that case-fold onto an alias are outside the statement'],
+    'required_classes': {'all': ['table:x86_64', 'table:i386', 'table:arm', 'table:aarch64', 'table:x32', 'by-name', 'by-number',
+                                 'alias-in-non-canonical-case', 'unsupported-or-unknown', 'lookups-across-processes', 'alias:x32', 'alias:amd64', 'alias:arm64', 'alias:386']},
+    'units': [
+        {'test': 'TestC12Tables', 'timeout': {'quick': 300, 'thorough': 300}},
+        {'test': 'TestC12ArchMetadata', 'checks': {'quick': 5000, 'thorough': 300000}, 'timeout': {'quick': 300, 'thorough': 1200}},
+        {'test': 'TestC12Processes', 'helpers': ['digest'], 'timeout': {'quick': 300, 'thorough': 600}},
+    ],
+}
+MANIFEST_TEXT['C12'] = {'claim': 'complete enumeration of all five tables (inverse laws, agreement with three independent vendored sources, audit ids) plus generated alias spellings and cross-process lookup digests',
+                        'note': 'independent sources are Linux 6.1 UAPI headers (x86, asm-generic), Go syscall and x/sys v0.48.0; newer entries are checked for consistency only',
+                        'technique': 'exhaustive enumeration against vendored oracle tables + property-based testing (rapid) for spellings + cross-process differential'}
